@@ -392,6 +392,17 @@ func TestVerifC01Stream(t *testing.T) {
 		scs = append(scs, &plScenario{Name: "partition-race", SrcN: 1, TgtN: 1, Colls: []*plColl{c},
 			Drivers: []plDriver{{Kind: "start", Coll: 0}, {Kind: "addpart", Coll: 0, Part: "p1", PartState: pb.PartitionState_PartitionCreated}}})
 	}
+	// a partition name that is used again: the start-up listing announces the earlier incarnation as dropped (it is gone
+	// downstream too), a message of that incarnation is still in the stream, then the partition is created again under a
+	// new id - the messages of the new incarnation are not "addressed to a dropped partition"
+	{
+		c := mkColl(101, "c1", []string{"src-dml_0"}, []string{"tgt-dml_0"})
+		withPartition(c, false)
+		c.Shards[0].Script = []plPack{{Msgs: []plMsg{{Kind: "ins", Ms: 1000, Part: "p1", Old: true}}, TickMs: 1000, TickLg: 5}, pkIns(1005), pkInsPart(1010), pkDel(1020)}
+		scs = append(scs, &plScenario{Name: "partition-recreated", SrcN: 1, TgtN: 1, Colls: []*plColl{c},
+			Drivers: []plDriver{{Kind: "start", Coll: 0}, {Kind: "addpart", Coll: 0, Part: "p1", PartState: pb.PartitionState_PartitionDropped, OldPart: true},
+				{Kind: "addpart", Coll: 0, Part: "p1", PartState: pb.PartitionState_PartitionCreated}}, HeavyBound: 1})
+	}
 	// a partition dropped on a two-shard collection: what one shard has already seen of the drop must not change what the
 	// other shard hands over before its own drop message
 	{
